@@ -737,6 +737,17 @@ theorem hex13_eq (n : Nat) (h : n < 2 ^ 52) : hex13 n = hexFixed 13 n :=
 
 theorem fracField_lt (bits : Nat) : fracField bits < 2 ^ 52 := Nat.mod_lt _ (by omega)
 
+/-- the pair printed by `to_hex`: the canonical mantissa and exponent of the double -/
+theorem hexMantExp_eq (bits : Nat) :
+    hexMantExp bits = (if expField bits = 0 then fracField bits else fracField bits + 2 ^ 52,
+      if expField bits = 0 then -1074 else (expField bits : Int) - 1075) := by
+  unfold hexMantExp integerDecode
+  by_cases h : expField bits = 0
+  · simp only [h, if_true]
+    congr 1
+    · omega
+  · simp only [h, if_false]
+
 
 /-! ### digit lists produced by PV.Dec -/
 
@@ -1672,9 +1683,9 @@ theorem hexFacts_all (bits : Nat) (hb : bits < 2 ^ 64) (hf : isFinite bits = tru
   have hfin : expField bits ≠ 2047 := by simpa [isFinite] using hf
   have hbf := bits_fields bits hb
   intro k hk hdiv
-  unfold integerDecode at hdiv ⊢
+  rw [hexMantExp_eq] at hdiv ⊢
   simp only at hdiv ⊢
-  generalize hmant : (if expField bits = 0 then fracField bits * 2 else fracField bits + 2 ^ 52) = mant at *
+  generalize hmant : (if expField bits = 0 then fracField bits else fracField bits + 2 ^ 52) = mant at *
   have h16 : 0 < 16 ^ k := Nat.pow_pos (by omega)
   have hq : mant = mant / 16 ^ k * 16 ^ k := by
     have := Nat.div_add_mod mant (16 ^ k)
@@ -1692,21 +1703,21 @@ theorem hexFacts_all (bits : Nat) (hb : bits < 2 ^ 64) (hf : isFinite bits = tru
   have hq64 : mant / 16 ^ k < 2 ^ 64 := by
     have := Nat.div_le_self mant (16 ^ k); omega
   by_cases he : expField bits = 0
-  · -- subnormal: M = frac, E = -1074; mant = 2·frac, exponent -1075
-    simp only [he, if_true] at hmant
-    have := hexfConvert_exact (isNeg bits) (mant / 16 ^ k) ((expField bits : Int) - 1075 + 4 * (k : Int))
+  · -- subnormal: M = frac, E = -1074
+    simp only [he, if_true] at hmant ⊢
+    have := hexfConvert_exact (isNeg bits) (mant / 16 ^ k) ((-1074 : Int) + 4 * (k : Int))
       (fracField bits) (-1074) hq0 hq64 (by omega) (by omega) (by omega)
       (by
-        have e1 : ((expField bits : Int) - 1075 + 4 * (k : Int) + 1075).toNat = 4 * k := by omega
+        have e1 : ((-1074 : Int) + 4 * (k : Int) + 1075).toNat = 4 * k + 1 := by omega
         have e2 : ((-1074 : Int) + 1075).toNat = 1 := by decide
-        rw [e1, e2, Nat.pow_mul, show (2 : Nat) ^ 4 = 16 by decide, ← hq, ← hmant])
+        rw [e1, e2, Nat.pow_succ, Nat.pow_mul, show (2 : Nat) ^ 4 = 16 by decide, ← Nat.mul_assoc, ← hq, hmant])
       (by omega) (Or.inr rfl)
     rw [this]
     have : fracField bits < 2 ^ 52 := hfr
     simp only [this, if_true]
     congr 1
     rw [he] at hbf; omega
-  · simp only [he, if_false] at hmant
+  · simp only [he, if_false] at hmant ⊢
     have := hexfConvert_exact (isNeg bits) (mant / 16 ^ k) ((expField bits : Int) - 1075 + 4 * (k : Int))
       (fracField bits + 2 ^ 52) ((expField bits : Int) - 1075) hq0 hq64 (by omega) (by omega) (by omega)
       (by
@@ -1778,10 +1789,28 @@ theorem isInteger_of_integer (bits n : Nat) (hf : isFinite bits = true)
   · simp only [he, if_false]
     unfold ratOf at hn
     simp only [he, if_false] at hn
-    have hpos : 0 < 2 ^ (-e).toNat := Nat.pow_pos (by omega)
     have hmod : m % 2 ^ (-e).toNat = 0 := by rw [hn]; exact Nat.mul_mod_left _ _
-    simp [hmod, hpos]
+    simp [hmod]
 
+
+theorem exists_integer_of_isInteger (bits : Nat) (hf : isFinite bits = true) (h : isInteger bits = true) :
+    ∃ n, (ratOf (decompose bits).2.1 (decompose bits).2.2).1 =
+      n * (ratOf (decompose bits).2.1 (decompose bits).2.2).2 := by
+  unfold isInteger at h
+  simp only [hf, Bool.not_true, Bool.false_eq_true, if_false] at h
+  rw [show (decompose bits) = ((decompose bits).1, (decompose bits).2.1, (decompose bits).2.2) from rfl] at h
+  simp only at h
+  generalize (decompose bits).2.1 = m at *
+  generalize (decompose bits).2.2 = e at *
+  unfold ratOf
+  by_cases he : e ≥ 0
+  · simp only [he, if_true]
+    exact ⟨m * 2 ^ e.toNat, by simp⟩
+  · simp only [he, if_false, beq_iff_eq] at h ⊢
+    refine ⟨m / 2 ^ (-e).toNat, ?_⟩
+    have := Nat.div_add_mod m (2 ^ (-e).toNat)
+    rw [h, Nat.add_zero, Nat.mul_comm] at this
+    exact this.symm
 
 /-- the integer-valued double `n ≥ 1` is recovered by correctly rounded conversion of `10n/10` -/
 theorem ofRat_ten_bits (bits n : Nat) (hb : bits < 2 ^ 64) (hf : isFinite bits = true) (hpos : 0 < n)
